@@ -34,6 +34,8 @@ var c08Shapes = []string{
 	"1 ? 2", "0 ? 2", "a==1 ? 'A', a==2 ? 'B'", "x = 1 ? 2 : 3", "1 && 2 || 3", "0 || 0 || 5", "`{1 ? 2 : 3}{% if 0 {1} else {2} %}`", "`{% x=1; if x {2} %}{x}`",
 	"&cv = 1 ? d6 : d8; cv", "[1,2,3][1 ? 0 : 2]", "{'a': 1 ? 2 : 3}.a", "(1 ? [1] : [2])[0]", "if 1 { 2 } 3", "if 0 {} else if 1 { 5 } else { 6 }; 7", "x = if 1 {2}", "5\n{'a':1", "1 2 3", "a(a", "[x,2]\n[x,2]",
 	"while 0 { 1 } 2", "i=0; while i<2 { i=i+1 } i", "if 1 { if 1 { if 1 { 1 } } }", "func ff() { func gg() { 1 }; gg() }; ff()", "&cv = `{% if 1 {2} %}`; cv", "x = 1; x ?? 2 ? 3 : 4", "1 ? 2 ? 3 : 4 : 5", "1 ? 2, 3 ? 4, 5 ? 6",
+	"x = 3; 'type:' + (x == 1 ? 'melee', x == 2 ? (x > 10 ? 'far', 1 ? 'near'))", "(0 ? 1, 0 ? (0 ? 2, 1 ? 3))", "func cls(u, v) { return u == 1 ? 'a', u == 2 ? (v > 1 ? 'b', true ? 'c') }; '<' + cls(3, 0) + '>'",
+	"1 + (0 ? 1, 0 ? 2)", "[0 ? 1, 1 ? 2, 0 ? (1 ? 3)]", "(1 ? (0 ? 1, 1 ? 2), 0 ? 3) + 1", "`{0 ? 1, 0 ? (0 ? 2, 1 ? 3)}`", "&cv = 0 ? 1, 0 ? (0 ? 2, 1 ? 3); cv",
 	"^st 力量60 敏捷70", "^st 力量+1d4", "^st &手枪=1d6+2", "^st 力量*1.5: 3", "2d6k1 + d20优势", "3a8 + 2c5 + b1 + f", "(1 || 2)d(0 || 6)", "[1,2][0] || [3][0]", "xs=[1,2]; xs[0] = xs[1] = 5; xs",
 }
 
